@@ -1433,7 +1433,10 @@ class Node:
         if conn.ident in self.peer_sockets:
             del self.peer_sockets[conn.ident]
         peer = self._find_connection_peer(conn)
-        if peer:
+        # a peer may briefly have a second connection (e.g. a rejected
+        # duplicate); only its current connection affects its state
+        is_current = not (peer and peer.connection and peer.connection != conn)
+        if peer and is_current:
             # unset so that a new connection may be made later
             peer.connection = None
             peer.last_disconnect = int(time.time())
@@ -1443,7 +1446,7 @@ class Node:
 
         # Remove pending answer tracking; we cannot know if the peer will
         # persist its hop-by-hop IDs over reconnect.
-        if conn.host_identity in self._peer_waiting_answer:
+        if is_current and conn.host_identity in self._peer_waiting_answer:
             del self._peer_waiting_answer[conn.host_identity]
 
         # Check if this was the last available peer for an app and clear app
